@@ -133,7 +133,17 @@ func (pc *pCtx) p3Frame(s *pSite) {
 					}
 					seen[k] = true
 					ok := inside || hot
+					if al, isAl := tgt.(*ssa.Alloc); isAl && hot && !inside && al.Parent() == s.Top && returnsOperator(s.Top) {
+						// a hot construct shares state between the subscribers of ONE shared observable: the state lives in the
+						// closure that is applied to a source. A cell of the operator factory itself is shared by every
+						// observable built from that operator value (Share's refCount hoisted next to the config check)
+						ok = false
+					}
 					props := props
+					if hot {
+						// what a hot construct shares decides when its source is connected and released (C11, C14)
+						props = append(append([]string{}, props...), "C11", "C14")
+					}
 					if timeOperatorRe.MatchString(s.Name) {
 						// shared state of a throttling / sampling / buffering / delaying operator is shared timing: one
 						// subscription's tick opens another one's gate (C16)
@@ -1570,4 +1580,18 @@ func (pc *pCtx) p3SharedObjects(s *pSite) {
 			}
 		}
 	}
+}
+
+// returnsOperator: fn returns a function from Observable to Observable (an operator value that can be applied to several sources).
+func returnsOperator(fn *ssa.Function) bool {
+	res := fn.Signature.Results()
+	if res.Len() != 1 {
+		return false
+	}
+	sig, ok := res.At(0).Type().Underlying().(*types.Signature)
+	if !ok || sig.Params().Len() != 1 || sig.Results().Len() != 1 {
+		return false
+	}
+	isObs := func(t types.Type) bool { return namedName(t) == "Observable" || namedName(t) == "ConnectableObservable" }
+	return isObs(sig.Params().At(0).Type()) && isObs(sig.Results().At(0).Type())
 }
